@@ -690,6 +690,7 @@ func RunDupAssign(w *World, r *Report, fns []*ssa.Function) {
 			seen := map[string]token.Pos{}
 			dup := token.NoPos
 			nReset := 0
+			var resetVars []*ast.Ident
 			for _, s := range list {
 				var ts []string
 				switch x := s.(type) {
@@ -741,6 +742,24 @@ func RunDupAssign(w *World, r *Report, fns []*ssa.Function) {
 					}
 					seen[t] = s.Pos()
 				}
+				// the variables this statement resets
+				switch x := s.(type) {
+				case *ast.AssignStmt:
+					for _, l := range x.Lhs {
+						if id, ok := l.(*ast.Ident); ok {
+							resetVars = append(resetVars, id)
+						}
+					}
+				case *ast.ExprStmt:
+					if c, ok := x.X.(*ast.CallExpr); ok && len(c.Args) == 1 {
+						if id, ok := c.Args[0].(*ast.Ident); ok {
+							resetVars = append(resetVars, id)
+						}
+					}
+				}
+			}
+			if nReset >= 3 && dup == token.NoPos {
+				checkSiblingReset(w, r, fn, body, list, resetVars)
 			}
 			if nReset >= 2 {
 				key := r.MkKey("dupassign", name, fmt.Sprintf("reset group of %d statements", nReset))
@@ -1206,4 +1225,140 @@ func drainsBySSA(fn *ssa.Function) bool {
 		}
 	}
 	return false
+}
+
+// checkSiblingReset: a reset group (three or more reset statements in a row,
+// e.g. at the end of one subtable of a multi-subtable lookup) clears the
+// per-subtable state.  Variables of one type that were declared side by side
+// (`x := make(T)` statements of one statement list) form a family; when the
+// group resets two or more members of a family, a member that the enclosing
+// loop also fills but the group leaves out keeps its contents for the next
+// subtable.
+func checkSiblingReset(w *World, r *Report, fn *ssa.Function, body *ast.BlockStmt, group []ast.Stmt, resetVars []*ast.Ident) {
+	info := w.Info(fn)
+	if info == nil {
+		return
+	}
+	reset := map[types.Object]bool{}
+	byType := map[string][]types.Object{}
+	for _, id := range resetVars {
+		o := info.ObjectOf(id)
+		if o == nil || reset[o] {
+			continue
+		}
+		reset[o] = true
+		byType[o.Type().String()] = append(byType[o.Type().String()], o)
+	}
+	// declaration lists: statement lists with `x := make(T...)` / `var x T` of local variables
+	declList := map[types.Object]ast.Node{}
+	ast.Inspect(body, func(n ast.Node) bool {
+		var list []ast.Stmt
+		switch x := n.(type) {
+		case *ast.BlockStmt:
+			list = x.List
+		case *ast.CaseClause:
+			list = x.Body
+		default:
+			return true
+		}
+		for _, st := range list {
+			switch x := st.(type) {
+			case *ast.AssignStmt:
+				if x.Tok == token.DEFINE {
+					for _, l := range x.Lhs {
+						if id, ok := l.(*ast.Ident); ok {
+							if o := info.Defs[id]; o != nil {
+								declList[o] = n
+							}
+						}
+					}
+				}
+			case *ast.DeclStmt:
+				if gd, ok := x.Decl.(*ast.GenDecl); ok {
+					for _, sp := range gd.Specs {
+						if vs, ok := sp.(*ast.ValueSpec); ok {
+							for _, id := range vs.Names {
+								if o := info.Defs[id]; o != nil {
+									declList[o] = n
+								}
+							}
+						}
+					}
+				}
+			}
+		}
+		return true
+	})
+	// the loop around the group and the objects written in it
+	groupPos := group[0].Pos()
+	var loop ast.Node
+	for _, n := range enclosing(body, groupPos) {
+		switch n.(type) {
+		case *ast.ForStmt, *ast.RangeStmt:
+			loop = n // innermost last
+		}
+	}
+	if loop == nil {
+		return
+	}
+	written := map[types.Object]bool{}
+	ast.Inspect(loop, func(n ast.Node) bool {
+		as, ok := n.(*ast.AssignStmt)
+		if !ok {
+			return true
+		}
+		for _, l := range as.Lhs {
+			switch x := l.(type) {
+			case *ast.Ident:
+				if o := info.ObjectOf(x); o != nil {
+					written[o] = true
+				}
+			case *ast.IndexExpr:
+				if id, ok := x.X.(*ast.Ident); ok {
+					if o := info.ObjectOf(id); o != nil {
+						written[o] = true
+					}
+				}
+			}
+		}
+		return true
+	})
+	var types_ []string
+	for t := range byType {
+		types_ = append(types_, t)
+	}
+	sort.Strings(types_)
+	for _, t := range types_ {
+		members := byType[t]
+		if len(members) < 2 {
+			continue
+		}
+		dl := declList[members[0]]
+		if dl == nil {
+			continue
+		}
+		var left []string
+		for o, n := range declList {
+			if n != dl || reset[o] || o.Type().String() != t || !written[o] {
+				continue
+			}
+			left = append(left, o.Name())
+		}
+		sort.Strings(left)
+		key := r.MkKey("dupassign", fnName(fn), "siblings of the reset group ("+shortType(t)+")")
+		if len(left) > 0 {
+			r.Fail("dupassign", key, w.Pos(groupPos), fmt.Sprintf("the reset group clears %d variables of type %s that were declared side by side, but not %s, which the same loop fills: its contents survive into the next pass (the next subtable sees entries of the previous one)", len(members), shortType(t), strings.Join(left, ", ")), nil)
+		} else {
+			r.OK("dupassign", key, w.Pos(groupPos), "every sibling the loop fills is reset")
+		}
+	}
+}
+
+func shortType(t string) string {
+	if i := strings.LastIndex(t, "/"); i >= 0 {
+		// keep the prefix up to the last '[' or '*' before the path
+		j := strings.LastIndexAny(t[:i], "[]* ")
+		return t[:j+1] + t[i+1:]
+	}
+	return t
 }
